@@ -1,6 +1,6 @@
 (* C15 property theorems. Only statements closed by [exact lemma] and Print Assumptions. *)
 From V Require Import Common.Base C15.Names C15.Renamer C15.Spec
-  C15.NamesProofs C15.NumberProofs C15.SlotsProofs C15.MinifyProofs C15.ComposeProofs C15.ResolveProofs.
+  C15.NamesProofs C15.NumberProofs C15.SlotsProofs C15.MinifyProofs C15.ComposeProofs C15.ResolveProofs C15.ScopeBuild C15.ScopeBuildProofs.
 
 (* NumberToMinifiedName is injective for every alphabet without repeated characters *)
 Theorem minified_name_injective : forall m,
@@ -229,3 +229,17 @@ Theorem resolution_preserved_number : forall fuel st reserved toplevel nested na
     resolve v (number_name_for st names) (number_name_for st names s) = Some s.
 Proof. exact resolution_preserved_number_all. Qed.
 Print Assumptions resolution_preserved_number.
+
+(* ---- scope construction ----
+   Whatever scope skeleton is numbered (fresh symbols per scope, names shared
+   with an enclosing scope, children in source order), the resulting module
+   scope and symbol table satisfy BOTH well-formedness predicates that the
+   scope-tree theorems above assume (wf_slots for AssignNestedScopeSlots,
+   wf_number for the NumberRenamer with the module scope's symbols as top level).
+   With ScopeProg.skel_of_prog (tied to js_parser by correspondence) this turns
+   the sampled check on parser forests into a theorem: parser_forest_wellformed *)
+Theorem numbered_skeleton_wellformed : forall k,
+  let '(m, st) := build_sk k in
+  wf_slots st m = true /\ wf_number st (module_top m) (sc_children m) = true.
+Proof. exact build_sk_wellformed_all. Qed.
+Print Assumptions numbered_skeleton_wellformed.
